@@ -892,6 +892,16 @@ impl Sim {
         Ok(())
     }
 
+    /// Hands the server a clone of an event descriptor the application also gives to other servers.
+    pub fn attach_shared_kill_switch(&mut self, shared: &EventFd) -> Result<(), String> {
+        let k = shared.try_clone().map_err(|e| e.to_string())?;
+        let k2 = shared.try_clone().map_err(|e| e.to_string())?;
+        self.kill_fd = k.as_raw_fd();
+        self.server.add_kill_switch(k).map_err(|e| format!("add_kill_switch: {:?}", e))?;
+        self.kill = Some(k2);
+        Ok(())
+    }
+
     /// The application replaces the kill switch: a second `add_kill_switch` with a new event descriptor (the
     /// harness's handle on the old one is closed first, so that the old description really goes away when the
     /// server drops it). From then on the new one is the one that is signalled.
